@@ -37,6 +37,7 @@ trait CurveDyn {
     fn codec(&self, jobs: &[Value], seed: u64) -> Vec<Value>;
     fn bitflip(&self, progs: &[Program], stride: usize) -> Vec<Value>;
     fn mutate(&self, progs: &[Program], n: usize, seed: u64) -> Vec<Value>;
+    fn batch(&self, jobs: &[Value], record: bool) -> (Vec<Value>, Vec<Value>);
 }
 struct Dyn<C: Cv>(std::marker::PhantomData<C>);
 impl<C: Cv> CurveDyn for Dyn<C> {
@@ -103,6 +104,15 @@ impl<C: Cv> CurveDyn for Dyn<C> {
     }
     fn bitflip(&self, progs: &[Program], stride: usize) -> Vec<Value> {
         progs.iter().map(|p| { let mut v = wire::bitflip_sweep::<C>(p, stride); v["prog_id"] = serde_json::json!(p.id); v }).collect()
+    }
+    fn batch(&self, jobs: &[Value], record: bool) -> (Vec<Value>, Vec<Value>) {
+        let (mut ev, mut res) = (vec![], vec![]);
+        for j in jobs {
+            let (e, r) = wire::batch_run::<C>(j, record);
+            ev.extend(e);
+            res.push(r);
+        }
+        (ev, res)
     }
     fn mutate(&self, progs: &[Program], n: usize, seed: u64) -> Vec<Value> {
         progs.iter().map(|p| { let mut v = wire::mutate_sweep::<C>(p, n, seed); v["prog_id"] = serde_json::json!(p.id); v }).collect()
@@ -217,6 +227,17 @@ fn main() {
             let seed: u64 = arg(&args, "--seed").map(|s| s.parse().unwrap()).unwrap_or(1);
             let rows = with_curve(&curve, |c| c.mutate(&progs, n, seed));
             write_json_lines(&arg(&args, "--out").unwrap(), &rows);
+        }
+        // batch --curve C --jobs FILE --out RESULTS [--trace FILE]
+        "batch" => {
+            let curve = arg(&args, "--curve").unwrap();
+            let jobs = read_json_lines(&arg(&args, "--jobs").unwrap());
+            let trace = arg(&args, "--trace");
+            let (ev, res) = with_curve(&curve, |c| c.batch(&jobs, trace.is_some()));
+            write_json_lines(&arg(&args, "--out").unwrap(), &res);
+            if let Some(t) = trace {
+                write_json_lines(&t, &ev);
+            }
         }
         // genprogs --seed S --n N --out FILE [--maxops K] [--modulus P]
         "genprogs" => {
